@@ -24,7 +24,7 @@ GClass(c) ==
   CASE c = 13 -> GCR
     [] c = 10 -> GLF
     [] c \in {1, 8203} -> GCTL                                   \* U+0001, ZERO WIDTH SPACE
-    [] c \in {769, 12441, 65039, 127997} -> GEXT                  \* U+0301, U+3099, VS16, skin tone U+1F3FD
+    [] c \in {769, 12441, 65039, 127997, 65438, 65439} -> GEXT    \* U+0301, U+3099, VS16, skin tone U+1F3FD, half-width (han)dakuten U+FF9E/U+FF9F (typed Katakana)
     [] c = 8205 -> GZWJ
     [] c \in {127471, 127477, 127482, 127480} -> GRI              \* regional indicators J P U S
     [] c = 1536 -> GPRE
